@@ -659,6 +659,9 @@ func c10GenSmtp(r *vh.Rng, big bool, edge int) string {
 	}
 	if edge >= 0 {
 		n = c10EdgeSizesSmtp[edge%len(c10EdgeSizesSmtp)]
+		if sh := (edge / len(c10EdgeSizesSmtp)) % c10EdgeShapes; n >= 1<<19 && sh != 0 && sh != 2 && !vh.Thorough() {
+			n = []int{0, 2}[edge%2] // quick tier: the 1 MiB bodies only with a restart before the first / the next attempt
+		}
 	}
 	return fmt.Sprintf("C10 smtp %s %s A=%s F=%s R=%s H=%s B=%d:%d:%d", strings.Join(steps, "."), opts, c10Bit(r.Chance(60)),
 		c10HexOrEmpty([]byte(from)), strings.Join(rc, ","), c10HexOrEmpty(blob), r.Intn(4), n, r.Next()%1000000007)
@@ -708,6 +711,10 @@ func TestVerifC10Smtp(t *testing.T) {
 	for _, op := range []string{
 		"C10 smtp aPt.aPt.r.aPo u8 A=1 F=" + vh.HexBytes([]byte("inv\xff\xfeuser@example.org")) + " R=" + vh.HexBytes([]byte("rcpt@example.org")) + " H=" + vh.HexBytes([]byte("Subject: x\r\n\r\n")) + " B=0:100:1",
 		"C10 smtp aPtt.r.aPoo u A=0 F=" + vh.HexBytes([]byte("sender@example.org")) + " R=" + vh.HexBytes([]byte("rc\xffpt@example.org")) + "," + vh.HexBytes([]byte("ok@example.org")) + " H=" + vh.HexBytes([]byte("Subject: x\r\n\r\n")) + " B=0:100:2",
+		// an empty body / a client header without a single field, restarted before the first resp. the second attempt
+		"C10 smtp R.aPo - A=0 F=" + vh.HexBytes([]byte("a@example.org")) + " R=" + vh.HexBytes([]byte("b@example.org")) + " H=0d0a B=0:0:1",
+		"C10 smtp aPt.r.aPo - A=0 F=" + vh.HexBytes([]byte("a@example.org")) + " R=" + vh.HexBytes([]byte("b@example.org")) + " H=" + vh.HexBytes([]byte("Subject: x\r\n\r\n")) + " B=0:0:1",
+		"C10 smtp aAt.r.r.aPt.r 8 A=1 F=- R=" + vh.HexBytes([]byte("b@example.org")) + " H=0d0a B=0:0:1",
 	} {
 		c10Smtp(out, ep, op)
 	}
